@@ -22,7 +22,7 @@ theorem mem_keys_union_iff {a b : Dom} {k : String} : k ∈ keys (a.union b) ↔
 
 section
 variable {K : Type} [Zero K] [Add K] [Sub K] [Mul K] [Div K] [Neg K] [OfScientific K]
-  [LT K] [DecidableLT K] [LE K] [DecidableLE K] [Transc K]
+  [LT K] [DecidableLT K] [LE K] [DecidableLE K] [Transc K] [Conj K]
 
 /-- **domain**: the keys read by the simplified operator are the keys of the original that are not constant -/
 theorem pe_keys (ck : List String) (cs : MVal K) (e : Ex K) :
